@@ -28,7 +28,7 @@ def jobs(tier):
         js += [
             job(M, "c07_layout", "layout/double-continuation", dict(mode="split", double=True), max_seconds=ms),
             job(M, "c07_table", "table/n4/star", dict(n=4, star=True, symbols=["C"], props="none"), max_seconds=ms),
-            job(M, "c07_table", "table/n3/one-prop", dict(n=3, props="one", symbols=["C", "D", "T"], permute_lines=True), max_seconds=ms),
+            *[j2 for j in split(job(M, "c07_table", "table/n3/one-prop", dict(n=3, props="one", symbols=["C", "D", "T"], permute_lines=True), max_seconds=ms), "lineorder", 6) for j2 in split(j, "el0", 3)],
         ]
     return js
 
